@@ -245,7 +245,12 @@ func c13Exprs(e *Env) []vexpr {
 	ints := atoms["int"]
 	strs := atoms["string"]
 	wrap := func(kind, tmpl, typ string, sub vexpr, ptrLike bool) vexpr {
-		v := vexpr{Expr: strings.ReplaceAll(tmpl, "$", sub.Expr), Type: typ, Class: sub.Class, Why: sub.Why, Kind: kind + "(" + sub.Kind + ")", PtrLike: ptrLike}
+		se := sub.Expr
+		if (strings.HasPrefix(se, "-") || strings.HasPrefix(se, "+") || strings.HasPrefix(se, "^")) && !strings.Contains(tmpl, "($)") {
+			// "-" + "-x" would read as a decrement
+			se = "(" + se + ")"
+		}
+		v := vexpr{Expr: strings.ReplaceAll(tmpl, "$", se), Type: typ, Class: sub.Class, Why: sub.Why, Kind: kind + "(" + sub.Kind + ")", PtrLike: ptrLike}
 		return v
 	}
 	intTemplates := []struct {
